@@ -460,6 +460,21 @@ def noKeyCycle (hr : String → String → Bool) (h : Heap) (r : Val) : Bool :=
            (hashedInsts hr h 8 k).all fun i => !((reach h (.ref i)).getD d false)
        | Option.none => true)
 
+/-! ## well-typed heaps -/
+
+/-- the typing facts about Python objects that the pickler relies on without testing them: the module and the
+qualified name of a class are strings; the class of an instance and the callee of a reduction are classes -/
+def cellOK (h : Heap) : Obj → Bool
+  | .global m q => (strOf h m).isSome && (strOf h q).isSome
+  | .inst c _ => (clsName h c).isSome
+  | .reduced c _ _ => (clsName h c).isSome
+  | _ => true
+
+def wellTyped (h : Heap) : Bool := h.toList.all (cellOK h)
+
+/-- the number of objects the pickler memoised (every visited address once) -/
+def dumpCount (h : Heap) (r : Val) : Option Nat := (save h (dumpFuel h) r (initD h)).map (·.n)
+
 /-! ## isomorphism of rooted heaps -/
 
 /-- pointwise pairing of two value lists of equal length -/
